@@ -57,9 +57,12 @@ def check_text(mol, tag, found, chk):
     sec = text[text.index("RESIDUE    pKa    BURIED"):text.index("SUMMARY OF THIS PREDICTION")]
     rows = {}
     order = []
+    blocks = {}
     for ln in sec.splitlines():
         if len(ln) >= 49 + 54 and ln[49:57].strip().replace(".", "").replace("-", "").isdigit():
             lab = ln[:9]
+            if re.fullmatch(r"-?\d+\.\d\d", ln[9:16].strip() or "x"):      # the first line of a block carries the pKa value
+                blocks[lab] = blocks.get(lab, 0) + 1
             if lab not in rows:
                 rows[lab] = {"first": ln, "cells": [[], [], []]}
                 order.append(lab)
@@ -70,6 +73,15 @@ def check_text(mol, tag, found, chk):
     summ = {}
     for m in re.finditer(r"^   (.{9}) +(-?\d+\.\d\d) +(-?\d+\.\d\d)", text[text.index("SUMMARY OF THIS PREDICTION"):], re.M):
         summ.setdefault(m.group(1).strip(), []).append((float(m.group(2)), float(m.group(3))))
+    # one block per reported group, also when several groups carry the same label (two copies of a ligand in one chain)
+    want_blocks = {}
+    for g in avr.groups:
+        if not (g.coupled_titrating_group and rp) and g.residue_type in mol.version.parameters.write_out_order:
+            want_blocks[g.label] = want_blocks.get(g.label, 0) + 1
+    for lab_, n_ in want_blocks.items():
+        if blocks.get(lab_, 0) != n_:
+            found.append(("pka-text-block-count", f"{tag}: {n_} reported group(s) labelled {lab_.strip()!r}, {blocks.get(lab_, 0)} block(s) in the determinant table", {"case": tag, "group": lab_}))
+            break
     seen = set()
     for g in avr.groups:
         if g.coupled_titrating_group and rp:
@@ -136,6 +148,10 @@ def run(chk: common.Check):
         m2_.append(structures.set_xyz(l[:21] + {"A": "B", "B": "A"}[l[21]] + l[22:], structures.get_xyz(l)[0] + 300, structures.get_xyz(l)[1], structures.get_xyz(l)[2]))
     m2_.sort(key=lambda l: l[21])
     cases.append(("4DFR as two models, chains exchanged in the second", structures.as_models(["\n".join(m1_) + "\n", "\n".join(m2_) + "\n"]), [], "default"))
+    # two copies of one titratable ligand in ONE chain (their groups carry the same labels)
+    kni = [l for l in structures.read("1HPX.pdb").splitlines() if l[:6] == "HETATM" and l[17:20] == "KNI"]
+    dup = [structures.set_xyz(structures.set_resnum(l, 901, " "), structures.get_xyz(l)[0] + 60, structures.get_xyz(l)[1], structures.get_xyz(l)[2]) for l in kni]
+    cases.append(("1HPX.pdb with a second copy of the inhibitor (B 901, 60 A away)", "\n".join([l for l in structures.read("1HPX.pdb").splitlines() if l[:3] != "END"] + dup) + "\nEND\n", [], "default"))
     big = ["3SGB-subset.pdb"] + (["1HPX.pdb", "1FTJ-Chain-A.pdb", "4DFR.pdb"] if chk.thorough else [])
     for n in big:
         t = structures.read(n)
